@@ -158,6 +158,7 @@ type replayer struct {
 
 	shape   string
 	dead    bool
+	herr    error
 	n, t    int
 	mutKey  string // stage:kind of the (last) tamper, "none" if honest
 	G, H    kyber.Point
@@ -395,6 +396,9 @@ func (r *replayer) run() error {
 		if err != nil {
 			return err
 		}
+		if r.herr != nil {
+			return r.herr
+		}
 	}
 	return nil
 }
@@ -491,6 +495,10 @@ func (r *replayer) judge(op string, p int, must, impl string, accepted bool, err
 	got := "rej"
 	if accepted {
 		got = "acc"
+	}
+	if must != "acc" && must != "rej" && must != "free" {
+		r.herr = fmt.Errorf("behaviour without a verdict (must=%q): generator and replayer out of step", must)
+		return
 	}
 	switch must {
 	case "acc":
